@@ -16,7 +16,13 @@ PROP = {'drive': ['Shape'],
  'areas': [('shape', 70000, 1750000)],
  'rule': 'distinct case lines (lookup list, GDEF, lookup indices, history of 1-5 glyph sequences); '
          'non-trivial = history with at least one non-empty sequence; every case is run on seven streams '
-         '(V apply, D text, D hist, D safe, D len, G stack, G guarded)',
+         '(V apply, D text, D hist, D safe, D len, G stack, G guarded); tables that went through gtab.Read are '
+         'also judged from their BYTES (D shape.readsafe: whatever the reader accepts consists of documented '
+         'subtable types and is applied twice without a panic). Fixed families run in full on every run: '
+         'trailing skipped glyphs (324), contextual nested in contextual (6 parent x 6 child formats x 3 action '
+         'orders x match/no-match x marks, context repeated in one sequence and over a 3-call history: 432), '
+         'nested lookup with the flags word of the parent and another mark filtering set (72), hand-built bytes '
+         'with extension lookups for every target type incl. extension->extension and mixed (100)',
  'partial': ['C07_no_panic is proved in full for every lookup list in the shape the reader delivers '
              '(readerShapedLL = coverage indices inside the indexed arrays, context format 3 and chained context '
              'format 3 with at least one input coverage, no nil pair-adjustment pointer, no unimplemented value '
